@@ -25,11 +25,12 @@ FS = None                 # the mounted SimFS (module global, one per process)
 
 
 class FileNode:
-    __slots__ = ("data", "ino")
+    __slots__ = ("data", "ino", "flock_owner")
 
     def __init__(self, data=b""):
         self.data = bytearray(data)
         self.ino = 0
+        self.flock_owner = None        # open file description holding an exclusive flock
 
     def clone(self, idmap=None):
         n = FileNode(self.data)
@@ -88,6 +89,7 @@ class SimFS:
         self.on_mutation = None        # callable(kind, path, info)
         self.on_torn = None            # callable(path, node, pos, data)
         self.faults = None             # callable(op, path) -> None or raises OSError
+        self.short_write = None        # callable(path, n) -> k < n for a short write, or None
         self.open_writers = {}         # path -> count of open writable descriptions
         self.open_raws = []            # SimRaw objects not yet closed (renames update their names)
         self.hook_errors = []          # exceptions raised by world callbacks (harness bugs, never swallowed silently)
@@ -174,7 +176,7 @@ class SimFS:
             self.sim.log("fs " + text, quiet=bool(self.sim.in_probe))
 
     def _fault(self, op, path):
-        if self.faults is not None:
+        if self.faults is not None and not (self.sim is not None and self.sim.in_probe):
             self.faults(op, path)
 
     def _mutated(self, kind, path, info=None):
@@ -195,7 +197,7 @@ class SimFS:
 
     # -- syscalls ---------------------------------------------------------------
     def sys_open(self, path, m, excl=False, trunc=False, creat=False, append=False,
-                 readable=False, writable=False):
+                 readable=False, writable=False, allow_dir=False):
         path = os.path.normpath(_p(path))
         self._yield("open")
         self._fault("open", path)
@@ -211,7 +213,10 @@ class SimFS:
             if excl and creat:
                 raise FileExistsError(errno.EEXIST, "File exists", path)
             if isinstance(node, DirNode):
-                raise IsADirectoryError(errno.EISDIR, "Is a directory", path)
+                if writable or not allow_dir:
+                    raise IsADirectoryError(errno.EISDIR, "Is a directory", path)
+                raw = SimRaw(self, node, path, True, False, False)   # a directory handle (for fsync / fstat)
+                return raw
         truncated = False
         if trunc and len(node.data):
             del node.data[:]
@@ -363,6 +368,10 @@ class SimRaw(io.RawIOBase):
         fs._fault("write", self.name)
         if self._append:
             self.pos = len(self.node.data)
+        if fs.short_write is not None and len(b) > 1 and not (fs.sim is not None and fs.sim.in_probe):
+            k = fs.short_write(self.name, len(b))
+            if k is not None and 0 < k < len(b):
+                b = b[:k]          # a legal short write: the caller must write the rest itself
         fs._torn(self, self.pos, b)
         if self.pos > len(self.node.data):
             self.node.data.extend(b"\0" * (self.pos - len(self.node.data)))
@@ -404,12 +413,25 @@ class SimRaw(io.RawIOBase):
                 fs.open_raws.remove(self)
             except ValueError:
                 pass
+            fd = getattr(self, "_own_fd", None)
+            if fd is not None:
+                fs.fds.pop(fd, None)
+            if getattr(self.node, "flock_owner", None) is self:
+                self.node.flock_owner = None      # closing a description drops its flock
             if self._w:
                 fs._mutated("close", self.name, None)
         super().close()
 
     def fileno(self):
-        raise io.UnsupportedOperation("fileno")
+        fs = self.fs
+        for fd, raw in fs.fds.items():
+            if raw is self:
+                return fd
+        fd = fs.next_fd
+        fs.next_fd += 1
+        fs.fds[fd] = self
+        self._own_fd = fd
+        return fd
 
     def isatty(self):
         return False
@@ -438,6 +460,15 @@ def sim_open(file, mode="r", buffering=-1, encoding=None, errors=None, newline=N
     fs = FS
     binary = "b" in mode
     k, plus = _parse_mode(mode)
+    if opener is not None and not isinstance(file, int):
+        flags = {"r": os.O_RDONLY, "w": os.O_WRONLY | os.O_CREAT | os.O_TRUNC,
+                 "x": os.O_WRONLY | os.O_CREAT | os.O_EXCL, "a": os.O_WRONLY | os.O_CREAT | os.O_APPEND}[k]
+        if plus:
+            flags = (flags & ~os.O_ACCMODE) | os.O_RDWR
+        file = opener(file, flags)
+        closefd = True
+        if not (isinstance(file, int) and file >= FD_BASE):
+            return _real["open"](file, mode, buffering, encoding, errors, newline, True, None)
     if isinstance(file, int):
         raw = fs.fds.get(file)
         if raw is None:
@@ -481,6 +512,7 @@ def _os_open(path, flags, mode=0o777, *, dir_fd=None):
         excl=bool(flags & os.O_EXCL), trunc=bool(flags & os.O_TRUNC),
         creat=bool(flags & os.O_CREAT), append=bool(flags & os.O_APPEND),
         readable=acc in (os.O_RDONLY, os.O_RDWR), writable=acc in (os.O_WRONLY, os.O_RDWR),
+        allow_dir=True,
     )
     fd = fs.next_fd
     fs.next_fd += 1
@@ -570,6 +602,8 @@ def install():
     if _installed:
         return
     _installed = True
+    import shutil
+    shutil._use_fd_functions = False       # rmtree etc. go through the path-based calls we virtualise
     _real["open"] = builtins.open
     builtins.open = sim_open
     io.open = sim_open
@@ -668,8 +702,64 @@ def install():
     os.fdopen = s_fdopen
 
 
+def _install_fcntl():
+    """advisory locks on simulated descriptors: exclusive only, cooperative waiting under the scheduler"""
+    try:
+        import fcntl
+    except ImportError:
+        return
+    real_flock, real_lockf = fcntl.flock, fcntl.lockf
+
+    def _fd(fd):
+        return fd if isinstance(fd, int) else fd.fileno()
+
+    def sim_lock(fd, op):
+        raw = _fd_raw(fd)
+        node = raw.node
+        if op & fcntl.LOCK_UN:
+            if node.flock_owner is raw:
+                node.flock_owner = None
+            FS._log(f"flock unlock {raw.name}")
+            return
+        FS._yield("flock")
+        while node.flock_owner is not None and node.flock_owner is not raw:
+            if op & fcntl.LOCK_NB:
+                raise BlockingIOError(errno.EWOULDBLOCK, "Resource temporarily unavailable")
+            sim = FS.sim
+            if sim is None or not sim.is_task():
+                raise OSError(errno.EDEADLK, "simulated flock would block forever")
+            sim.yield_point("fs.flock-wait")
+        node.flock_owner = raw
+        FS._log(f"flock lock {raw.name}")
+
+    def flock(fd, op):
+        f = _fd(fd)
+        if isinstance(f, int) and f >= FD_BASE and FS is not None:
+            return sim_lock(f, op)
+        return real_flock(fd, op)
+
+    def lockf(fd, cmd, *a):
+        f = _fd(fd)
+        if isinstance(f, int) and f >= FD_BASE and FS is not None:
+            return sim_lock(f, cmd)
+        return real_lockf(fd, cmd, *a)
+    fcntl.flock = flock
+    fcntl.lockf = lockf
+
+
 def mount(fs):
     global FS
     install()
+    _install_fcntl_once()
     FS = fs
     return fs
+
+
+_fcntl_done = False
+
+
+def _install_fcntl_once():
+    global _fcntl_done
+    if not _fcntl_done:
+        _fcntl_done = True
+        _install_fcntl()
